@@ -12,6 +12,33 @@ REPLAY = os.path.join(VERIF, "replay")
 FINDINGS = os.path.join(VERIF, "findings", "known_findings.json")
 
 
+class Timeout(BaseException):
+    """raised by the watchdog inside a call of the library (a BaseException, so that no handler of the library swallows it)"""
+
+
+class watchdog:
+    """with watchdog(seconds): ...  -- interrupts a call that does not return (wall clock; used only to keep a check from
+    hanging, a TIMEOUT observation is confirmed separately before it is judged)"""
+
+    def __init__(self, seconds=3.0):
+        self.seconds = seconds
+
+    def _fire(self, signum, frame):
+        raise Timeout()
+
+    def __enter__(self):
+        import signal
+        self._old = signal.signal(signal.SIGALRM, self._fire)
+        signal.setitimer(signal.ITIMER_REAL, self.seconds)
+        return self
+
+    def __exit__(self, *a):
+        import signal
+        signal.setitimer(signal.ITIMER_REAL, 0)
+        signal.signal(signal.SIGALRM, self._old)
+        return False
+
+
 class MachineryError(Exception):
     """Tree-independent failure of the verification machinery (exit 2)."""
 
